@@ -5,7 +5,7 @@ import os, sys, shutil, json, subprocess
 HERE = os.path.dirname(os.path.dirname(os.path.abspath(__file__)))
 pid, src = sys.argv[1], sys.argv[2]
 letters = sys.argv[3] if len(sys.argv) > 3 else 'CD'
-rnd = {'CD': 2, 'EF': 3, 'GH': 4, 'IJ': 5}[letters]
+rnd = {'CD': 2, 'EF': 3, 'GH': 4, 'IJ': 5, 'KL': 6}[letters]
 head = subprocess.run(['git', '-C', '/repo', 'log', '--format=%h', '-1'], capture_output=True, text=True).stdout.strip()
 notes = open(os.path.join(src, 'notes.md')).read()
 for x, new in (('A', letters[0]), ('B', letters[1])):
@@ -22,7 +22,7 @@ for x, new in (('A', letters[0]), ('B', letters[1])):
     shutil.copy(os.path.join(src, 'demo_%s.py' % x), os.path.join(d, 'demo.py'))
     open(os.path.join(d, 'notes.md'), 'w').write(notes)
     json.dump({"id": "%s-%s" % (pid, new), "breaks_property": pid,
-               "origin": "round %d (2026-09-29):" % rnd + " written by a fresh sub-agent that saw only the property text and a scratch worktree of the repo (nothing from /verif)" + (", asked for a subtle change" if rnd in (2, 3, 4) else ", plain prompt (a regression a code review could miss)"),
+               "origin": "round %d (2026-09-29):" % rnd + " written by a fresh sub-agent that saw only the property text and a scratch worktree of the repo (nothing from /verif)" + (", asked for a subtle change" if rnd in (2, 3, 4, 6) else ", plain prompt (a regression a code review could miss)"),
                "needs_to_manifest": "see notes.md (section for change %s)" % x,
                "validated": {"by": "tools/validate_seeded.sh in a scratch worktree of /repo at HEAD " + head, "tests_with_patch": "61 passed", "demo_with_patch_exit": 1, "demo_without_patch_exit": 0},
                "detected_by": None}, open(os.path.join(d, 'meta.json'), 'w'), indent=1)
